@@ -1,7 +1,700 @@
 package main
 
+// Expression-tree correspondence: random js_ast.Expr trees over the
+// constructors the helpers inspect, serialised as Coq terms of C03.Tree.expr;
+// each case carries the input and the result observed on the real helper.
+
 import (
+	"fmt"
+	"math"
+	"strings"
+
+	"github.com/evanw/esbuild/internal/ast"
+	"github.com/evanw/esbuild/internal/compat"
+	"github.com/evanw/esbuild/internal/js_ast"
+	"github.com/evanw/esbuild/internal/logger"
 	. "github.com/evanw/esbuild/verifharness/hlib"
 )
 
-func extraCases(r *Rng, n int, tier string, cf *CoqFile, st *Stats) {}
+var unopName = map[js_ast.OpCode]string{
+	js_ast.UnOpPos: "UPos", js_ast.UnOpNeg: "UNeg", js_ast.UnOpCpl: "UCpl", js_ast.UnOpNot: "UNot", js_ast.UnOpVoid: "UVoid",
+	js_ast.UnOpTypeof: "UTypeof", js_ast.UnOpDelete: "UDelete", js_ast.UnOpPreDec: "UPreDec", js_ast.UnOpPreInc: "UPreInc",
+	js_ast.UnOpPostDec: "UPostDec", js_ast.UnOpPostInc: "UPostInc",
+}
+var binopName = map[js_ast.OpCode]string{
+	js_ast.BinOpAdd: "BAdd", js_ast.BinOpSub: "BSub", js_ast.BinOpMul: "BMul", js_ast.BinOpDiv: "BDiv", js_ast.BinOpRem: "BRem", js_ast.BinOpPow: "BPow",
+	js_ast.BinOpLt: "BLt", js_ast.BinOpLe: "BLe", js_ast.BinOpGt: "BGt", js_ast.BinOpGe: "BGe", js_ast.BinOpIn: "BIn", js_ast.BinOpInstanceof: "BInstanceof",
+	js_ast.BinOpShl: "BShl", js_ast.BinOpShr: "BShr", js_ast.BinOpUShr: "BUShr", js_ast.BinOpLooseEq: "BLooseEq", js_ast.BinOpLooseNe: "BLooseNe",
+	js_ast.BinOpStrictEq: "BStrictEq", js_ast.BinOpStrictNe: "BStrictNe", js_ast.BinOpNullishCoalescing: "BNullish", js_ast.BinOpLogicalOr: "BLogOr",
+	js_ast.BinOpLogicalAnd: "BLogAnd", js_ast.BinOpBitwiseOr: "BBitOr", js_ast.BinOpBitwiseAnd: "BBitAnd", js_ast.BinOpBitwiseXor: "BBitXor", js_ast.BinOpComma: "BComma",
+	js_ast.BinOpAssign: "BAssign", js_ast.BinOpAddAssign: "BAddAssign", js_ast.BinOpSubAssign: "BSubAssign", js_ast.BinOpMulAssign: "BMulAssign",
+	js_ast.BinOpDivAssign: "BDivAssign", js_ast.BinOpRemAssign: "BRemAssign", js_ast.BinOpPowAssign: "BPowAssign", js_ast.BinOpShlAssign: "BShlAssign",
+	js_ast.BinOpShrAssign: "BShrAssign", js_ast.BinOpUShrAssign: "BUShrAssign", js_ast.BinOpBitwiseOrAssign: "BBitOrAssign", js_ast.BinOpBitwiseAndAssign: "BBitAndAssign",
+	js_ast.BinOpBitwiseXorAssign: "BBitXorAssign", js_ast.BinOpNullishCoalescingAssign: "BNullishAssign", js_ast.BinOpLogicalOrAssign: "BLogOrAssign", js_ast.BinOpLogicalAndAssign: "BLogAndAssign",
+}
+var allUnops, allBinops []js_ast.OpCode
+
+func init() {
+	for op := js_ast.UnOpPos; op <= js_ast.UnOpPostInc; op++ {
+		if _, ok := unopName[op]; ok {
+			allUnops = append(allUnops, op)
+		}
+	}
+	for op := js_ast.BinOpAdd; op <= js_ast.BinOpLogicalAndAssign; op++ {
+		if _, ok := binopName[op]; ok {
+			allBinops = append(allBinops, op)
+		}
+	}
+}
+
+func cstr(s string) string {
+	u := make([]uint16, 0, len(s))
+	for _, c := range s {
+		if c > 0xFFFF {
+			c -= 0x10000
+			u = append(u, uint16(0xD800+(c>>10)), uint16(0xDC00+(c&0x3FF)))
+		} else {
+			u = append(u, uint16(c))
+		}
+	}
+	return CU16(u)
+}
+
+func coqExprs(es []js_ast.Expr) string {
+	var parts []string
+	for _, e := range es {
+		parts = append(parts, coqExpr(e))
+	}
+	return "[" + strings.Join(parts, "; ") + "]"
+}
+
+// unsupported node kinds panic: the generator only produces modelled kinds
+func coqExpr(x js_ast.Expr) string {
+	switch e := x.Data.(type) {
+	case nil:
+		panic("nil expression")
+	case *js_ast.ENull:
+		return "ENull"
+	case *js_ast.EUndefined:
+		return "EUndefined"
+	case *js_ast.EMissing:
+		return "EMissing"
+	case *js_ast.EThis:
+		return "EThis"
+	case *js_ast.EBoolean:
+		return "(EBool " + CBool(e.Value) + ")"
+	case *js_ast.ENumber:
+		return "(ENumB " + fbits(e.Value) + ")"
+	case *js_ast.EBigInt:
+		return "(EBig " + CBytes([]byte(e.Value)) + ")"
+	case *js_ast.EString:
+		return "(EStr " + CU16(e.Value) + ")"
+	case *js_ast.ERegExp:
+		return "(ERegExp " + CBytes([]byte(e.Value)) + ")"
+	case *js_ast.EFunction:
+		return "(EFunc 0)"
+	case *js_ast.EArrow:
+		return "(EArrow 0)"
+	case *js_ast.EIdentifier:
+		return fmt.Sprintf("(EId %d %s %s)", e.Ref.InnerIndex, CBool(e.CanBeRemovedIfUnused), CBool(e.MustKeepDueToWithStmt))
+	case *js_ast.EDot:
+		return fmt.Sprintf("(EDot %s %s %d %s %s)", coqExpr(e.Target), cstr(e.Name), e.OptionalChain, CBool(e.CanBeRemovedIfUnused), CBool(e.IsSymbolInstance))
+	case *js_ast.EIndex:
+		return fmt.Sprintf("(EIndex %s %s %d)", coqExpr(e.Target), coqExpr(e.Index), e.OptionalChain)
+	case *js_ast.ECall:
+		return fmt.Sprintf("(ECall %s %s %d %s)", coqExpr(e.Target), coqExprs(e.Args), e.OptionalChain, CBool(e.CanBeUnwrappedIfUnused))
+	case *js_ast.ENew:
+		return fmt.Sprintf("(ENew %s %s %s)", coqExpr(e.Target), coqExprs(e.Args), CBool(e.CanBeUnwrappedIfUnused))
+	case *js_ast.EUnary:
+		return fmt.Sprintf("(EUn %s %s %s)", unopName[e.Op], coqExpr(e.Value), CBool(e.WasOriginallyTypeofIdentifier))
+	case *js_ast.EBinary:
+		return fmt.Sprintf("(EBin %s %s %s)", binopName[e.Op], coqExpr(e.Left), coqExpr(e.Right))
+	case *js_ast.EIf:
+		return fmt.Sprintf("(EIf %s %s %s)", coqExpr(e.Test), coqExpr(e.Yes), coqExpr(e.No))
+	case *js_ast.ETemplate:
+		if e.TagOrNil.Data != nil {
+			panic("tagged template")
+		}
+		var parts []string
+		for _, p := range e.Parts {
+			parts = append(parts, fmt.Sprintf("(%s, %s)", coqExpr(p.Value), CU16(p.TailCooked)))
+		}
+		return fmt.Sprintf("(ETemplate %s [%s])", CU16(e.HeadCooked), strings.Join(parts, "; "))
+	case *js_ast.EArray:
+		return "(EArray " + coqExprs(e.Items) + ")"
+	case *js_ast.ESpread:
+		return "(ESpread " + coqExpr(e.Value) + ")"
+	case *js_ast.EObject:
+		var parts []string
+		for _, p := range e.Properties {
+			kind := 2
+			if p.Kind == js_ast.PropertyField {
+				kind = 0
+			} else if p.Kind == js_ast.PropertySpread {
+				kind = 1
+			}
+			key := "ENull"
+			if p.Key.Data != nil {
+				key = coqExpr(p.Key)
+			}
+			parts = append(parts, fmt.Sprintf("(%d, %s, %s, %s)", kind, CBool(p.Flags.Has(js_ast.PropertyIsComputed)), key, coqExpr(p.ValueOrNil)))
+		}
+		return "(EObject [" + strings.Join(parts, "; ") + "])"
+	case *js_ast.EAnnotation:
+		return fmt.Sprintf("(EAnnot %s %s)", coqExpr(e.Value), CBool(e.Flags.Has(js_ast.CanBeRemovedIfUnusedFlag)))
+	case *js_ast.EInlinedEnum:
+		return "(EInlinedEnum " + coqExpr(e.Value) + ")"
+	}
+	panic(fmt.Sprintf("unmodelled expression kind %T", x.Data))
+}
+
+func coqOptExpr(x js_ast.Expr) string {
+	if x.Data == nil {
+		return "None"
+	}
+	return "(Some " + coqExpr(x) + ")"
+}
+
+// ---------------------------------------------------------------------------
+
+type tgen struct{ r *Rng }
+
+var treeNums = []float64{0, math.Copysign(0, -1), 1, -1, 2, math.NaN(), math.Inf(1), math.Inf(-1), 0.5, 255, 2147483648, 4294967296, 1e21, 5e-324}
+var treeStrs = []string{"", "a", "b", "undefined", "u", "0", "1", "object", "x", "<lone>"}
+var treeBigs = []string{"0", "1", "10", "0x0", "0b1", "00", "0x1", "123"}
+
+func mk(d js_ast.E) js_ast.Expr { return js_ast.Expr{Data: d} }
+
+func (g *tgen) ident() js_ast.Expr {
+	idx := uint32(1 + g.r.Intn(4))
+	if g.r.Chance(35) {
+		idx = uint32(1000 + g.r.Intn(3))
+	}
+	return mk(&js_ast.EIdentifier{Ref: ast.Ref{InnerIndex: idx}, CanBeRemovedIfUnused: g.r.Chance(10), MustKeepDueToWithStmt: g.r.Chance(5)})
+}
+
+func utf16(s string) []uint16 {
+	var u []uint16
+	for _, c := range s {
+		if c == 0xFFFD && false {
+			continue
+		}
+		u = append(u, uint16(c))
+	}
+	return u
+}
+
+func (g *tgen) str() js_ast.Expr {
+	s := treeStrs[g.r.Intn(len(treeStrs))]
+	if s == "<lone>" {
+		return mk(&js_ast.EString{Value: []uint16{0xD800}})
+	}
+	return mk(&js_ast.EString{Value: utf16(s)})
+}
+
+func (g *tgen) lit() js_ast.Expr {
+	switch g.r.Intn(12) {
+	case 0:
+		return mk(js_ast.ENullShared)
+	case 1:
+		return mk(js_ast.EUndefinedShared)
+	case 2, 3:
+		return mk(&js_ast.EBoolean{Value: g.r.Bool()})
+	case 4, 5, 6:
+		return mk(&js_ast.ENumber{Value: treeNums[g.r.Intn(len(treeNums))]})
+	case 7:
+		return mk(&js_ast.EBigInt{Value: treeBigs[g.r.Intn(len(treeBigs))]})
+	case 8, 9:
+		return g.str()
+	case 10:
+		switch g.r.Intn(4) {
+		case 0:
+			return mk(&js_ast.ERegExp{Value: "/x/"})
+		case 1:
+			return mk(&js_ast.EFunction{Fn: js_ast.Fn{Args: []js_ast.Arg{{}}}})
+		case 2:
+			return mk(&js_ast.EArrow{Args: []js_ast.Arg{{}}})
+		default:
+			return mk(js_ast.EThisShared)
+		}
+	default:
+		return mk(&js_ast.EInlinedEnum{Value: mk(&js_ast.ENumber{Value: treeNums[g.r.Intn(len(treeNums))]})})
+	}
+}
+
+func (g *tgen) probeCall() js_ast.Expr {
+	return mk(&js_ast.ECall{Target: mk(&js_ast.EIdentifier{Ref: ast.Ref{InnerIndex: uint32(1000 + g.r.Intn(3))}})})
+}
+
+func (g *tgen) leaf() js_ast.Expr {
+	switch g.r.Intn(8) {
+	case 0, 1, 2:
+		return g.lit()
+	case 3, 4:
+		return g.ident()
+	case 5:
+		return g.probeCall()
+	case 6:
+		if g.r.Bool() {
+			return mk(&js_ast.EArray{})
+		}
+		return mk(&js_ast.EObject{})
+	default:
+		return g.lit()
+	}
+}
+
+func (g *tgen) binop() js_ast.OpCode {
+	switch g.r.Intn(10) {
+	case 0, 1, 2:
+		return []js_ast.OpCode{js_ast.BinOpLogicalAnd, js_ast.BinOpLogicalOr, js_ast.BinOpNullishCoalescing}[g.r.Intn(3)]
+	case 3, 4:
+		return []js_ast.OpCode{js_ast.BinOpStrictEq, js_ast.BinOpStrictNe, js_ast.BinOpLooseEq, js_ast.BinOpLooseNe}[g.r.Intn(4)]
+	case 5:
+		return js_ast.BinOpComma
+	case 6:
+		return []js_ast.OpCode{js_ast.BinOpAdd, js_ast.BinOpUShr, js_ast.BinOpLt, js_ast.BinOpGt}[g.r.Intn(4)]
+	default:
+		return allBinops[g.r.Intn(len(allBinops))]
+	}
+}
+
+func (g *tgen) expr(d int) js_ast.Expr {
+	if d <= 0 || g.r.Chance(15) {
+		return g.leaf()
+	}
+	switch g.r.Intn(22) {
+	case 0, 1, 2, 3, 4:
+		return mk(&js_ast.EBinary{Op: g.binop(), Left: g.expr(d - 1), Right: g.expr(d - 1)})
+	case 5, 6, 7:
+		op := allUnops[g.r.Intn(len(allUnops))]
+		if g.r.Chance(50) {
+			op = []js_ast.OpCode{js_ast.UnOpNot, js_ast.UnOpNot, js_ast.UnOpVoid, js_ast.UnOpTypeof, js_ast.UnOpNeg}[g.r.Intn(5)]
+		}
+		v := g.expr(d - 1)
+		was := false
+		if op == js_ast.UnOpTypeof {
+			if g.r.Chance(60) {
+				v = g.ident()
+			}
+			if _, ok := v.Data.(*js_ast.EIdentifier); ok {
+				was = g.r.Chance(85)
+			}
+		}
+		return mk(&js_ast.EUnary{Op: op, Value: v, WasOriginallyTypeofIdentifier: was})
+	case 8, 9, 10:
+		return mk(&js_ast.EIf{Test: g.expr(d - 1), Yes: g.expr(d - 1), No: g.expr(d - 1)})
+	case 11:
+		t := g.expr(d - 1)
+		return mk(&js_ast.EDot{Target: t, Name: []string{"x", "y", "constructor"}[g.r.Intn(3)], CanBeRemovedIfUnused: g.r.Chance(15), IsSymbolInstance: g.r.Chance(10)})
+	case 12:
+		return mk(&js_ast.EIndex{Target: g.expr(d - 1), Index: g.expr(d - 1)})
+	case 13, 14:
+		n := g.r.Intn(3)
+		var args []js_ast.Expr
+		for i := 0; i < n; i++ {
+			a := g.expr(d - 1)
+			if g.r.Chance(12) {
+				a = mk(&js_ast.ESpread{Value: a})
+			}
+			args = append(args, a)
+		}
+		t := g.ident()
+		if g.r.Chance(30) {
+			t = mk(&js_ast.EDot{Target: g.ident(), Name: "m"})
+		}
+		if g.r.Chance(20) {
+			return mk(&js_ast.ENew{Target: t, Args: args, CanBeUnwrappedIfUnused: g.r.Chance(40)})
+		}
+		return mk(&js_ast.ECall{Target: t, Args: args, CanBeUnwrappedIfUnused: g.r.Chance(30)})
+	case 15:
+		n := g.r.Range(0, 3)
+		t := &js_ast.ETemplate{HeadCooked: utf16([]string{"", "h"}[g.r.Intn(2)])}
+		for i := 0; i < n; i++ {
+			t.Parts = append(t.Parts, js_ast.TemplatePart{Value: g.expr(d - 1), TailCooked: utf16([]string{"", "t"}[g.r.Intn(2)])})
+		}
+		return mk(t)
+	case 16:
+		n := g.r.Range(0, 3)
+		a := &js_ast.EArray{}
+		for i := 0; i < n; i++ {
+			it := g.expr(d - 1)
+			switch g.r.Intn(8) {
+			case 0:
+				it = mk(&js_ast.ESpread{Value: it})
+			case 1:
+				it = mk(&js_ast.ESpread{Value: mk(&js_ast.EArray{Items: []js_ast.Expr{g.expr(d - 1)}})})
+			case 2:
+				it = mk(js_ast.EMissingShared)
+			}
+			a.Items = append(a.Items, it)
+		}
+		return mk(a)
+	case 17:
+		n := g.r.Range(0, 3)
+		o := &js_ast.EObject{}
+		for i := 0; i < n; i++ {
+			p := js_ast.Property{Kind: js_ast.PropertyField, Key: g.str(), ValueOrNil: g.expr(d - 1)}
+			switch g.r.Intn(6) {
+			case 0:
+				p.Kind = js_ast.PropertySpread
+				p.Key = js_ast.Expr{}
+			case 1, 2:
+				p.Flags |= js_ast.PropertyIsComputed
+				if g.r.Bool() {
+					p.Key = g.expr(d - 1)
+				}
+			}
+			o.Properties = append(o.Properties, p)
+		}
+		return mk(o)
+	case 18:
+		var flags js_ast.AnnotationFlags
+		if g.r.Bool() {
+			flags = js_ast.CanBeRemovedIfUnusedFlag
+		}
+		return mk(&js_ast.EAnnotation{Value: g.expr(d - 1), Flags: flags})
+	case 19:
+		// guarded global reference shapes
+		id := mk(&js_ast.EIdentifier{Ref: ast.Ref{InnerIndex: 1000}})
+		ty := mk(&js_ast.EUnary{Op: js_ast.UnOpTypeof, Value: mk(&js_ast.EIdentifier{Ref: ast.Ref{InnerIndex: uint32(1000 + g.r.Intn(2))}}), WasOriginallyTypeofIdentifier: g.r.Chance(90)})
+		s := mk(&js_ast.EString{Value: utf16([]string{"undefined", "u", "object"}[g.r.Intn(3)])})
+		op := []js_ast.OpCode{js_ast.BinOpStrictEq, js_ast.BinOpStrictNe, js_ast.BinOpLooseEq, js_ast.BinOpLooseNe, js_ast.BinOpLt, js_ast.BinOpGt, js_ast.BinOpLe, js_ast.BinOpGe}[g.r.Intn(8)]
+		guard := mk(&js_ast.EBinary{Op: op, Left: ty, Right: s})
+		if g.r.Chance(30) {
+			guard = mk(&js_ast.EBinary{Op: op, Left: s, Right: ty})
+		}
+		switch g.r.Intn(4) {
+		case 0:
+			return mk(&js_ast.EIf{Test: guard, Yes: id, No: g.lit()})
+		case 1:
+			return mk(&js_ast.EIf{Test: guard, Yes: g.lit(), No: id})
+		case 2:
+			return mk(&js_ast.EBinary{Op: js_ast.BinOpLogicalAnd, Left: guard, Right: id})
+		default:
+			return mk(&js_ast.EBinary{Op: js_ast.BinOpLogicalOr, Left: guard, Right: id})
+		}
+	case 20:
+		// "a != null && a.b()" shapes
+		id := mk(&js_ast.EIdentifier{Ref: ast.Ref{InnerIndex: uint32(1 + g.r.Intn(2))}})
+		id2 := mk(&js_ast.EIdentifier{Ref: ast.Ref{InnerIndex: uint32(1 + g.r.Intn(2))}})
+		var chain js_ast.Expr = mk(&js_ast.EDot{Target: id2, Name: "b"})
+		if g.r.Bool() {
+			chain = mk(&js_ast.ECall{Target: chain})
+		}
+		if g.r.Bool() {
+			chain = mk(&js_ast.EIndex{Target: chain, Index: g.lit()})
+		}
+		op, lop := js_ast.BinOpLooseNe, js_ast.BinOpLogicalAnd
+		if g.r.Bool() {
+			op, lop = js_ast.BinOpLooseEq, js_ast.BinOpLogicalOr
+		}
+		if g.r.Chance(15) {
+			lop = js_ast.BinOpLogicalAnd
+		}
+		test := mk(&js_ast.EBinary{Op: op, Left: id, Right: mk(js_ast.ENullShared)})
+		if g.r.Chance(30) {
+			test = mk(&js_ast.EBinary{Op: op, Left: mk(js_ast.ENullShared), Right: id})
+		}
+		if g.r.Bool() {
+			y, n := chain, mk(js_ast.EUndefinedShared)
+			if g.r.Chance(30) {
+				n = g.lit()
+			}
+			if g.r.Chance(30) {
+				y = clone(id)
+			}
+			if op == js_ast.BinOpLooseEq {
+				y, n = n, y
+			}
+			return mk(&js_ast.EIf{Test: test, Yes: y, No: n})
+		}
+		return mk(&js_ast.EBinary{Op: lop, Left: test, Right: chain})
+	default:
+		// boolean-context shapes
+		switch g.r.Intn(4) {
+		case 0:
+			return mk(&js_ast.EUnary{Op: js_ast.UnOpNot, Value: mk(&js_ast.EUnary{Op: js_ast.UnOpNot, Value: g.expr(d - 1)})})
+		case 1:
+			op := []js_ast.OpCode{js_ast.BinOpStrictEq, js_ast.BinOpStrictNe, js_ast.BinOpLooseEq, js_ast.BinOpLooseNe}[g.r.Intn(4)]
+			l := mk(&js_ast.EBinary{Op: js_ast.BinOpUShr, Left: g.expr(d - 1), Right: g.expr(d - 1)})
+			if g.r.Chance(30) {
+				l = mk(&js_ast.EIf{Test: g.expr(d - 1), Yes: l, No: clone(l)})
+			}
+			return mk(&js_ast.EBinary{Op: op, Left: l, Right: mk(&js_ast.ENumber{Value: []float64{0, math.Copysign(0, -1), 1}[g.r.Intn(3)]})})
+		case 2:
+			return mk(&js_ast.EIf{Test: g.expr(d - 1), Yes: g.lit(), No: g.expr(d - 1)})
+		default:
+			return mk(&js_ast.EIf{Test: g.expr(d - 1), Yes: g.expr(d - 1), No: g.lit()})
+		}
+	}
+}
+
+func cloneList(es []js_ast.Expr) []js_ast.Expr {
+	var out []js_ast.Expr
+	for _, e := range es {
+		out = append(out, clone(e))
+	}
+	return out
+}
+
+func clone(x js_ast.Expr) js_ast.Expr {
+	switch e := x.Data.(type) {
+	case *js_ast.EIdentifier:
+		c := *e
+		return mk(&c)
+	case *js_ast.EDot:
+		c := *e
+		c.Target = clone(e.Target)
+		return mk(&c)
+	case *js_ast.EIndex:
+		c := *e
+		c.Target, c.Index = clone(e.Target), clone(e.Index)
+		return mk(&c)
+	case *js_ast.ECall:
+		c := *e
+		c.Target, c.Args = clone(e.Target), cloneList(e.Args)
+		return mk(&c)
+	case *js_ast.ENew:
+		c := *e
+		c.Target, c.Args = clone(e.Target), cloneList(e.Args)
+		return mk(&c)
+	case *js_ast.EUnary:
+		c := *e
+		c.Value = clone(e.Value)
+		return mk(&c)
+	case *js_ast.EBinary:
+		c := *e
+		c.Left, c.Right = clone(e.Left), clone(e.Right)
+		return mk(&c)
+	case *js_ast.EIf:
+		c := *e
+		c.Test, c.Yes, c.No = clone(e.Test), clone(e.Yes), clone(e.No)
+		return mk(&c)
+	case *js_ast.ETemplate:
+		c := *e
+		c.Parts = nil
+		for _, p := range e.Parts {
+			p.Value = clone(p.Value)
+			c.Parts = append(c.Parts, p)
+		}
+		return mk(&c)
+	case *js_ast.EArray:
+		c := *e
+		c.Items = cloneList(e.Items)
+		return mk(&c)
+	case *js_ast.ESpread:
+		return mk(&js_ast.ESpread{Value: clone(e.Value)})
+	case *js_ast.EObject:
+		c := *e
+		c.Properties = nil
+		for _, p := range e.Properties {
+			if p.Key.Data != nil {
+				p.Key = clone(p.Key)
+			}
+			p.ValueOrNil = clone(p.ValueOrNil)
+			c.Properties = append(c.Properties, p)
+		}
+		return mk(&c)
+	case *js_ast.EAnnotation:
+		c := *e
+		c.Value = clone(e.Value)
+		return mk(&c)
+	case *js_ast.EInlinedEnum:
+		c := *e
+		c.Value = clone(e.Value)
+		return mk(&c)
+	case *js_ast.ENumber:
+		c := *e
+		return mk(&c)
+	case *js_ast.EString:
+		c := *e
+		return mk(&c)
+	case *js_ast.EBoolean:
+		c := *e
+		return mk(&c)
+	case *js_ast.EBigInt:
+		c := *e
+		return mk(&c)
+	}
+	return x // shared immutable singletons and opaque literals
+}
+
+func nontrivial(x js_ast.Expr) bool {
+	switch x.Data.(type) {
+	case *js_ast.EBinary, *js_ast.EUnary, *js_ast.EIf, *js_ast.ECall, *js_ast.EArray, *js_ast.EObject, *js_ast.ETemplate, *js_ast.EDot, *js_ast.EIndex, *js_ast.EAnnotation:
+		return true
+	}
+	return false
+}
+
+func extraCases(r *Rng, n int, tier string, cf *CoqFile, st *Stats) {
+	g := &tgen{r: r}
+	ctx := js_ast.MakeHelperContext(func(ref ast.Ref) bool { return ref.InnerIndex >= 1000 })
+	nt := n / 4
+	if tier == "thorough" {
+		nt = n / 8
+	}
+
+	// --- KnownPrimitiveType, ToBooleanWithSideEffects, ToNullOrUndefinedWithSideEffects,
+	//     MaybeSimplifyNot, ExprCanBeRemovedIfUnused on the same trees
+	var kt, tb, tn, sn, cr []string
+	for i := 0; i < nt; i++ {
+		e := g.expr(r.Range(1, 3))
+		s := coqExpr(e)
+		kt = append(kt, fmt.Sprintf("(%s, %d)", s, js_ast.KnownPrimitiveType(e.Data)))
+		b, se, ok := js_ast.ToBooleanWithSideEffects(e.Data)
+		tb = append(tb, fmt.Sprintf("(%s, %s, %s, %s)", s, CBool(b), CBool(se == js_ast.NoSideEffects), CBool(ok)))
+		b, se, ok = js_ast.ToNullOrUndefinedWithSideEffects(e.Data)
+		tn = append(tn, fmt.Sprintf("(%s, %s, %s, %s)", s, CBool(b), CBool(se == js_ast.NoSideEffects), CBool(ok)))
+		cr = append(cr, fmt.Sprintf("(%s, %s)", s, CBool(ctx.ExprCanBeRemovedIfUnused(e))))
+		if res, ok := js_ast.MaybeSimplifyNot(e); ok {
+			sn = append(sn, fmt.Sprintf("(%s, Some %s)", s, coqExpr(res)))
+		} else {
+			sn = append(sn, fmt.Sprintf("(%s, None)", s))
+		}
+		st.Note("tree-helpers", s, nontrivial(e))
+	}
+	cf.AddCases("kt_cases", "expr * Z", "check_known_type", kt)
+	cf.AddCases("tb_cases", "expr * bool * bool * bool", "check_to_boolean", tb)
+	cf.AddCases("tn_cases", "expr * bool * bool * bool", "check_to_nullish", tn)
+	cf.AddCases("cr_cases", "expr * bool", "check_can_be_removed", cr)
+	cf.AddCases("sn_cases", "expr * option expr", "check_simplify_not", sn)
+
+	// --- CheckEqualityIfNoSideEffects / ValuesLookTheSame
+	var ce []string
+	for i := 0; i < nt; i++ {
+		var a, b js_ast.Expr
+		switch r.Intn(4) {
+		case 0:
+			a, b = g.lit(), g.lit()
+		case 1:
+			a = g.expr(2)
+			b = clone(a)
+		case 2:
+			a, b = g.expr(2), g.expr(2)
+		default:
+			a, b = g.leaf(), g.leaf()
+		}
+		strict := r.Bool()
+		kind := js_ast.LooseEquality
+		if strict {
+			kind = js_ast.StrictEquality
+		}
+		eq, ok := js_ast.CheckEqualityIfNoSideEffects(a.Data, b.Data, kind)
+		same := js_ast.ValuesLookTheSame(a.Data, b.Data)
+		ce = append(ce, fmt.Sprintf("(%s, %s, %s, %s, %s, %s)", coqExpr(a), coqExpr(b), CBool(strict), CBool(eq), CBool(ok), CBool(same)))
+		st.Note("tree-equality", coqExpr(a)+coqExpr(b), ok || same)
+	}
+	cf.AddCases("ce_cases", "expr * expr * bool * bool * bool * bool", "check_equality_cases", ce)
+
+	// --- JoinWithLeftAssociativeOp
+	var jl []string
+	for i := 0; i < nt/2; i++ {
+		op := []js_ast.OpCode{js_ast.BinOpLogicalAnd, js_ast.BinOpLogicalOr, js_ast.BinOpNullishCoalescing}[r.Intn(3)]
+		a, b := g.expr(2), g.expr(3)
+		if r.Chance(40) {
+			b = mk(&js_ast.EBinary{Op: op, Left: g.expr(2), Right: mk(&js_ast.EBinary{Op: op, Left: g.expr(1), Right: g.expr(1)})})
+		}
+		if r.Chance(30) {
+			a = mk(&js_ast.EBinary{Op: js_ast.BinOpComma, Left: g.expr(1), Right: a})
+		}
+		sa, sb2 := coqExpr(a), coqExpr(b)
+		res := js_ast.JoinWithLeftAssociativeOp(op, a, b)
+		jl = append(jl, fmt.Sprintf("(%s, %s, %s, %s)", binopName[op], sa, sb2, coqExpr(res)))
+		st.Note("tree-join", sa+sb2, true)
+	}
+	cf.AddCases("jl_cases", "binop * expr * expr * expr", "check_join_left", jl)
+
+	// --- SimplifyBooleanExpr
+	var sbn []string
+	for i := 0; i < nt; i++ {
+		e := g.expr(r.Range(1, 3))
+		s := coqExpr(e)
+		res := ctx.SimplifyBooleanExpr(e)
+		sbn = append(sbn, fmt.Sprintf("(%s, %s)", s, coqExpr(res)))
+		st.Note("tree-simplify-boolean", s, s != coqExpr(res))
+	}
+	cf.AddCases("sb_cases", "expr * expr", "check_simplify_boolean", sbn)
+
+	// --- SimplifyUnusedExpr
+	var su []string
+	for i := 0; i < nt; i++ {
+		e := g.expr(r.Range(1, 3))
+		s := coqExpr(e)
+		noOC := r.Chance(25)
+		var unsupported compat.JSFeature
+		if noOC {
+			unsupported = compat.OptionalChain
+		}
+		res := ctx.SimplifyUnusedExpr(e, unsupported)
+		su = append(su, fmt.Sprintf("(%s, %s, %s)", s, CBool(noOC), coqOptExpr(res)))
+		st.Note("tree-simplify-unused", s, res.Data == nil || s != coqExpr(res))
+	}
+	cf.AddCases("su_cases", "expr * bool * option expr", "check_simplify_unused", su)
+
+	// --- MangleIfExpr
+	var mi []string
+	for i := 0; i < nt; i++ {
+		test, yes, no := g.expr(2), g.expr(2), g.expr(2)
+		switch r.Intn(12) {
+		case 0:
+			no = clone(yes)
+		case 1:
+			yes = mk(&js_ast.EIf{Test: g.expr(1), Yes: g.expr(1), No: clone(no)})
+		case 2:
+			no = mk(&js_ast.EIf{Test: g.expr(1), Yes: clone(yes), No: g.expr(1)})
+		case 3:
+			no = mk(&js_ast.EBinary{Op: js_ast.BinOpComma, Left: g.expr(1), Right: clone(yes)})
+		case 4:
+			yes = mk(&js_ast.EBinary{Op: js_ast.BinOpComma, Left: g.expr(1), Right: clone(no)})
+		case 5:
+			yes = mk(&js_ast.EBinary{Op: js_ast.BinOpLogicalOr, Left: g.expr(1), Right: clone(no)})
+		case 6:
+			no = mk(&js_ast.EBinary{Op: js_ast.BinOpLogicalAnd, Left: g.expr(1), Right: clone(yes)})
+		case 7:
+			// calls with a common target
+			t := g.ident()
+			tail := g.expr(1)
+			a0, b0 := g.expr(1), g.expr(1)
+			if r.Chance(25) {
+				a0, b0 = mk(&js_ast.ESpread{Value: a0}), mk(&js_ast.ESpread{Value: b0})
+			} else if r.Chance(10) {
+				a0 = mk(&js_ast.ESpread{Value: a0})
+			}
+			yes = mk(&js_ast.ECall{Target: t, Args: []js_ast.Expr{a0, tail}})
+			no = mk(&js_ast.ECall{Target: clone(t), Args: []js_ast.Expr{b0, clone(tail)}})
+			if r.Chance(60) {
+				test = g.ident()
+			}
+		case 8:
+			id := g.ident()
+			test = id
+			if r.Bool() {
+				yes = clone(id)
+			} else {
+				no = clone(id)
+			}
+		case 9:
+			yes, no = mk(&js_ast.EBoolean{Value: r.Bool()}), mk(&js_ast.EBoolean{Value: r.Bool()})
+		case 10:
+			test = mk(&js_ast.EUnary{Op: js_ast.UnOpNot, Value: test})
+		}
+		var unsupported compat.JSFeature
+		noN, noOC := r.Chance(20), r.Chance(20)
+		if noN {
+			unsupported |= compat.NullishCoalescing
+		}
+		if noOC {
+			unsupported |= compat.OptionalChain
+		}
+		st1, sy, sn2 := coqExpr(test), coqExpr(yes), coqExpr(no)
+		res := ctx.MangleIfExpr(logger.Loc{}, &js_ast.EIf{Test: test, Yes: yes, No: no}, unsupported)
+		mi = append(mi, fmt.Sprintf("(%s, %s, %s, %s, %s, %s)", st1, sy, sn2, CBool(noN), CBool(noOC), coqExpr(res)))
+		_, isIf := res.Data.(*js_ast.EIf)
+		st.Note("tree-mangle-if", st1+sy+sn2, !isIf)
+	}
+	cf.AddCases("mi_cases", "expr * expr * expr * bool * bool * expr", "check_mangle_if", mi)
+
+	numericCases(r, n, tier, cf, st)
+}
